@@ -51,6 +51,14 @@ def gmatch : List PSeg → List (List Char) → Bool
       | _ :: rest => gmatch (.dstar :: ps) rest)
 termination_by ps path => ps.length + path.length
 
+/-- `collapseDoublestars` of `internal/watch/watch.go`: a `**` component that directly follows another
+one is dropped before the include pattern is handed to `doublestar.Glob` (which reads the second of
+two adjacent `**` as `*`) -/
+def collapse : List PSeg → List PSeg
+  | .dstar :: .dstar :: ps => collapse (.dstar :: ps)
+  | s :: ps => s :: collapse ps
+  | [] => []
+
 /-- the observed paths: those matching at least one include pattern and no exclude pattern -/
 def select (incl excl : List (List PSeg)) (tree : List (List (List Char))) : List (List (List Char)) :=
   tree.filter fun x => incl.any (fun p => gmatch p x) && !excl.any (fun p => gmatch p x)
